@@ -47,7 +47,7 @@ EXPECTED_PROBES = ["stop-in-last-slot-of-block", "two-branches-stop-in-same-bloc
                    "source-branch-after-first-block", "empty-flow-all-kinds", "common-type-fill-compute",
                    "common-type-fill-request", "common-type-call", "zip", "zip-with-fields", "nested-mixed-split-as-branch", "empty-split",
                    "fr-tuple-bufsize-none", "multi-block", "same-split-run-twice",
-                   "accumulator-inside-explicit-sequence"]
+                   "accumulator-inside-explicit-sequence", "same-branch-object-listed-twice"]
 
 
 class Spec(object):
@@ -144,6 +144,11 @@ def gen_scenario(tape):
                 "zip-fc": "fc", "zip-fr": "fr"}[sc.mode]
         sc.branches = [gen_branch(tape, "b%d" % i, [(1, kind)], allow_stop=False)
                        for i in range(nb)]
+    # the same branch object listed twice (every entry of the list is a branch of its own)
+    sc.dup = None
+    if sc.mode == "run" and nb >= 2 and tape.chance(1, 6, "same-branch-twice"):
+        j = 1 + tape.draw(nb - 1, "dup-j")
+        sc.dup = (tape.draw(j, "dup-i"), j)
     sc.bufsize = tape.choice([1000, None, 1, 2, 3, sc.n + 1], "bufsize")
     sc.zip_fields = sc.mode.startswith("zip") and tape.chance(1, 3, "zip-fields")
     sc.second_run = None
@@ -381,7 +386,8 @@ def ref_split_run(branches, flow, bufsize):
         for v in flow:
             yield v
         return
-    active = list(branches)
+    # entries, not objects: the same object may be listed twice
+    active = list(enumerate(branches))
     flow = iter(flow)
     empty = True
     while True:
@@ -389,11 +395,12 @@ def ref_split_run(branches, flow, bufsize):
         if not block:
             break
         empty = False
-        for br in list(active):
+        for ent in list(active):
+            br = ent[1]
             if br.kind == "source":
                 for r in br.call():
                     yield r
-                active.remove(br)
+                active.remove(ent)
             elif br.kind == "fc":
                 stopped = False
                 for v in block:
@@ -405,7 +412,7 @@ def ref_split_run(branches, flow, bufsize):
                 if stopped:
                     for r in br.compute():
                         yield r
-                    active.remove(br)
+                    active.remove(ent)
             elif br.kind == "fr":
                 stopped = False
                 for v in block:
@@ -417,11 +424,11 @@ def ref_split_run(branches, flow, bufsize):
                 for r in br.request():
                     yield r
                 if stopped:
-                    active.remove(br)
+                    active.remove(ent)
             else:
                 for r in br.run(block):
                     yield r
-    for br in active:
+    for _, br in active:
         if br.kind == "source":
             for r in br.call():
                 yield r
@@ -456,6 +463,8 @@ def run(tape):
         "" if sc.second_run is None else "; then the same Split is run again on %d values" % sc.second_run))
     for b in sc.branches:
         res.say("  " + describe_branch(b))
+    if getattr(sc, "dup", None):
+        res.say("  entry %d of the list is the same object as entry %d" % (sc.dup[1], sc.dup[0]))
     if sc.mode == "run":
         run_mode(sc, res)
     elif sc.mode.startswith("common"):
@@ -475,6 +484,8 @@ def run_mode(sc, res):
     # model first (it cannot fail)
     msrc = SimSource(mlog, "src", sc.n, lambda i: Tok(i))
     mbranches = [MBranch(b, mlog) for b in sc.branches]
+    if sc.dup:
+        mbranches[sc.dup[1]] = mbranches[sc.dup[0]]
     mlog.ev("built")
     injected = any(getattr(b, "err_at", None) is not None for b in sc.branches)
     try:
@@ -490,8 +501,11 @@ def run_mode(sc, res):
     # real
     src = SimSource(log, "src", sc.n, lambda i: Tok(i))
     try:
-        split = lena.core.Split([real_branch(b, log) for b in sc.branches],
-                                bufsize=sc.bufsize, copy_buf=sc.copy_buf)
+        rbranches = [real_branch(b, log) for b in sc.branches]
+        if sc.dup:
+            rbranches[sc.dup[1]] = rbranches[sc.dup[0]]
+            res.probe("same-branch-object-listed-twice")
+        split = lena.core.Split(rbranches, bufsize=sc.bufsize, copy_buf=sc.copy_buf)
         log.ev("built")
         consume(split.run(src), log)
         if sc.second_run is not None:
